@@ -5,7 +5,7 @@ from lib import cstr, clist
 
 CELLS = ["c%d", "c%d {{a|x}}", "c%d [[l|t]]", "'''c%d'''", "''c%d''", "c%d <b>h</b>", "c%d word word", "c%d [http://x.y e]",
          "c%d {{a|[[l]]}}", "c%d", "c%d 12", "c%d <span class=\"s\">q</span>", "c%d {{#if:a|b}}", "{{lc:Foo}} c%d", "c%d {{uc:x}} t",
-         "c%d {{PAGENAME}}", "c%d {{#switch:a|a=1|2}}"]
+         "c%d {{PAGENAME}}", "c%d {{#switch:a|a=1|2}}", "c%d=1", "n=c%d", "c%d=x y=z", "n=1 c%d"]
 ANAMES = ["class", "style", "id", "colspan", "data-x", "lang", "rowspan", "title", "data_kind", "row.no", "cell~ref", "xml:lang",
           "nowrap", "hidden", "reversed", "open", "align", "dir"]
 AVALS = ["x", "wikitable", "2", "a-b", "a_b", "r.s", "Zz9", ""]
@@ -44,7 +44,8 @@ def render_attrs(attrs, rng=None):
 def gen_table(rng, cid):
     r, c = rng.randint(1, 4), rng.randint(1, 4)
     style = rng.choice(["lines", "double", "mixed"])
-    t = {"attrs": gen_attrs(rng), "caption": ("cap%d" % cid[0]) if rng.random() < 0.4 else None, "rows": [], "style": style}
+    t = {"attrs": gen_attrs(rng), "caption": ("cap%d" % cid[0]) if rng.random() < 0.4 else None, "rows": [], "style": style,
+         "pad": rng.choice(["", " ", " "])}
     for _ in range(r):
         row = {"attrs": gen_attrs(rng, 2), "cells": []}
         hdr = rng.random() < 0.3
@@ -70,6 +71,7 @@ def render_table(t, rng):
     for row in t["rows"]:
         out.append("|-" + (" " + render_attrs(row["attrs"], rng) if row["attrs"] else "") + "\n")
         mark = "!" if row["cells"][0]["header"] else "|"
+        pad = t.get("pad", " ")
         if t["style"] == "mixed":
             line = ""
             for cell in row["cells"]:
@@ -78,20 +80,20 @@ def render_table(t, rng):
                 if cell["newline"]:
                     if line:
                         out.append(line + "\n")
-                    line = ("!" if cell["header"] else "|") + " " + body
+                    line = ("!" if cell["header"] else "|") + pad + body
                 else:
-                    line += " " + cell["sep"] + " " + body
+                    line += pad + cell["sep"] + pad + body
             out.append(line + "\n")
         elif t["style"] == "lines":
             for cell in row["cells"]:
                 a = render_attrs(cell["attrs"], rng)
-                out.append(mark + (" " + a + " | " if a else " ") + cell["text"] + "\n")
+                out.append(mark + (pad + a + " | " if a else pad) + cell["text"] + "\n")
         else:
             parts = []
             for cell in row["cells"]:
                 a = render_attrs(cell["attrs"], rng)
                 parts.append((a + " | " if a else "") + cell["text"])
-            out.append(mark + " " + (" " + mark * 2 + " ").join(parts) + "\n")
+            out.append(mark + pad + (pad + mark * 2 + pad).join(parts) + "\n")
     out.append("|}\n")
     return "".join(out)
 
@@ -344,6 +346,8 @@ def run(run):
         run.correspondence_break("Model.Attrs.parse_attrs disagrees with parser.parse_attrs",
                                  {"string": strings[b], "impl": aouts[b]})
     run.extra["traces_validated_against_impl"] = len(coq_cases)
+    import c03_tables
+    c03_tables.check(run)
 
 
 def replay(data):
